@@ -23,7 +23,7 @@ from .c13 import Shared, tab_term, write_anc_vcf, write_vcf
 from .core import Relation, err_kind
 
 PROP = "C12"
-CLAIMED = False
+CLAIMED = True
 COQ_MODULES = ["GenoTable", "C13_Model", "C13_Check", "C13_Proofs", "C13_Sound", "C12_Model", "C12_Check", "C12_Proofs", "C12_Sound"]
 PROPERTY_MODULE = "C12_Property"
 ALLOWED_AXIOMS = []
